@@ -31,6 +31,7 @@ func runC08(p *eng.Prog, r *eng.Report, tier string) {
 	// C08.23 (= C05.2 / C10.6, E-alias): the reader a handler is given is its own allocation: a reader that a
 	// handler kept from an earlier element must not be the object the current element is read through
 	closerFresh(c, "C08.23")
+	c07HandlerEOFIsAFailure(c, "C08.24")
 	c08Handle(c)
 	c08Reader(c)
 	// C08.10 a received stream error is returned as such: its decoder consumes
